@@ -62,6 +62,39 @@ func VerifHarness_C14_FillThenClose() {
 			panic(err)
 		}
 	}
+	if verifConfig("cancelSecond") == 1 && len(book) >= 3 && verifConfig("commit") == 1 {
+		// an order that is not the best one is cancelled in a block of its own
+		// (nothing else touches the book before the commit); the orders behind it
+		// must stay visible to later trades
+		second := book[0]
+		{
+			// priority: B/S ascending, then id
+			pr := make([]*verifOrd, len(book))
+			copy(pr, book)
+			for i := range pr {
+				for j := i + 1; j < len(pr); j++ {
+					ci := new(big.Int).Mul(pr[i].B, pr[j].S)
+					cj := new(big.Int).Mul(pr[j].B, pr[i].S)
+					if ci.Cmp(cj) > 0 || (ci.Cmp(cj) == 0 && pr[i].id > pr[j].id) {
+						pr[i], pr[j] = pr[j], pr[i]
+					}
+				}
+			}
+			second = pr[1]
+		}
+		_, vol := st.SwapV2.PairRemoveLimitOrder(second.id)
+		verifAssert("C14:cancel-returns-exactly-the-unfilled-amount", vol.Cmp(second.S) == 0)
+		var rest []*verifOrd
+		for _, o := range book {
+			if o != second {
+				rest = append(rest, o)
+			}
+		}
+		book = rest
+		if _, err := st.Commit(); err != nil {
+			panic(err)
+		}
+	}
 	a := verifBigPos("a")
 	verifAssume(a.Cmp(verifE18(100000)) <= 0)
 	if lo := verifConfig("minAmount"); lo > 0 {
@@ -102,6 +135,20 @@ func VerifHarness_C14_FillThenClose() {
 		} else {
 			verifAssert("C14:closed-order-is-empty", o.b.Sign() == 0)
 			verifAssert("C14:closing-refund-below-minimum-or-dust", o.refund.Cmp(big.NewInt(10000000000)) < 0 || new(big.Int).Sub(o.B, o.got).Cmp(big.NewInt(10000000000)) < 0)
+		}
+	}
+	// ---- best price first, seen from the pool: the pool is never pushed past
+	// the price of an order that is still open (the taker would have been served
+	// at a worse price than a resting order offers); 0.3% tolerance for the
+	// pool fee and rounding
+	{
+		p0, p1, _ := st.SwapV2.SwapPool(0, 1)
+		for _, o := range book {
+			if o.s.Sign() > 0 {
+				lhs := new(big.Int).Mul(new(big.Int).Mul(p0, o.s), big.NewInt(1000))
+				rhs := new(big.Int).Mul(new(big.Int).Mul(o.b, p1), big.NewInt(1003))
+				verifAssert("C14:pool-not-pushed-past-an-open-order", lhs.Cmp(rhs) <= 0)
+			}
 		}
 	}
 	// ---- priority: best price first, lower id first at equal price
